@@ -43,6 +43,17 @@ theorem cube_getElem? (st : List α) (base B R C b : Nat) (hb : b < B) :
     (cube st base B R C)[b]? = some (mat st (base + b * (R * C)) R C) := by
   simp [cube, List.getElem?_map, List.getElem?_range hb]
 
+/-- every row of the denotation of a `[R, C]` array that lies inside its storage has exactly `C` elements -/
+theorem mat_mem_length {st : List α} {base R C : Nat} (hf : base + R * C ≤ st.length) :
+    ∀ s ∈ mat st base R C, s.length = C := by
+  intro s hs
+  simp only [mat, List.mem_map, List.mem_range] at hs
+  obtain ⟨r, hr, rfl⟩ := hs
+  apply rowAt_length
+  have h1 : (r + 1) * C ≤ R * C := Nat.mul_le_mul_right C hr
+  rw [Nat.succ_mul] at h1
+  omega
+
 /-- the denotation is the `chunks` of `OW/Sim/Wrapper.lean` -/
 theorem mat_eq_chunks (st : List α) (C : Nat) : ∀ (R base : Nat), mat st base R C = chunks C R (st.drop base)
   | 0, _ => by simp [mat, chunks]
@@ -386,6 +397,32 @@ theorem RootOn.row_fits3 {h : Heap α} {a : Arr} {M nO T' b : Nat} {st : List α
   have h4 : (((M * nO) * T' : Nat) : Int) = (M : Int) * ((nO : Int) * ((T' : Int) * 1)) := by push_cast; ring
   omega
 
+/-- blocks of a root `[B, R, C]` lie inside its storage -/
+theorem RootOn.block_fits3 {h : Heap α} {a : Arr} {B R C b : Nat} {st : List α}
+    (r : RootOn h a [(B : Int), (R : Int), (C : Int)]) (hb : a.base = (b : Int)) (hs : h[a.sid]? = some st)
+    {k : Nat} (hk : k < B) : b + k * (R * C) + R * C ≤ st.length := by
+  obtain ⟨st', hs', hl⟩ := r.ok.store
+  rw [hs] at hs'; injection hs' with hs'; subst hs'
+  have hf := r.ok.fits
+  rw [r.view] at hf
+  have hf' : ((B : Int) * ((R : Int) * ((C : Int) * 1))) ≤ a.len := hf
+  have h1 : (k + 1) * (R * C) ≤ B * (R * C) := Nat.mul_le_mul_right _ hk
+  rw [Nat.succ_mul] at h1
+  have h2 : ((B * (R * C) : Nat) : Int) = (B : Int) * ((R : Int) * ((C : Int) * 1)) := by push_cast; ring
+  omega
+
+/-- the three shape facts about what the wrapper passes to the kernel (the premises of the kernel-fit hypothesis
+`hK` of `cellStepNd_refines`): `nI` input series of exactly `T` values, a state row of exactly `nS` values -/
+theorem passed_shapes {h : Heap α} {inputs : Arr} {nIn nI T ib sb nS i : Nat} {ist sst : List α}
+    (ri : RootOn h inputs [(nIn : Int), (nI : Int), (T : Int)]) (hib : inputs.base = (ib : Int))
+    (hi : h[inputs.sid]? = some ist) (hsfit : sb + i * nS + nS ≤ sst.length) :
+    (mat ist (ib + (i % nIn) * (nI * T)) nI T).length = nI ∧
+    (∀ s ∈ mat ist (ib + (i % nIn) * (nI * T)) nI T, s.length = T) ∧
+    (rowAt sst (sb + i * nS) nS).length = nS := by
+  obtain ⟨hnIn, _, _⟩ := pos3 ri.pos
+  have hmod : i % nIn < nIn := Nat.mod_lt _ (by omega)
+  exact ⟨mat_length _ _ _ _, mat_mem_length (ri.block_fits3 hib hi hmod), rowAt_length hsfit⟩
+
 /-- one cell step through the template's views is `cellStep` (statement and comments: `OW.Props.C04Nd.wrapperNd_refines`) -/
 theorem cellStepNd_refines [Num α] (km : KModel α) {h : Heap α} {parameters inputs states outputs : Arr}
     {rows nSets nIn nI T N nS M nO T' nP i pb ib sb ob : Nat} {pst ist sst ost : List α}
@@ -400,7 +437,7 @@ theorem cellStepNd_refines [Num α] (km : KModel α) {h : Heap α} {parameters i
     (hso : states.sid ≠ outputs.sid)
     (hnP : nP ≤ rows) (hiN : i < N) (hiM : i < M) (hT : T ≤ T')
     {rd : RunDims} (hrd : runDims inputs states outputs = .ok rd)
-    (hK : ∀ p ins st r, km.run p ins st = .ok r →
+    (hK : ∀ p ins st r, ins.length = nI → (∀ s ∈ ins, s.length = T) → st.length = nS → km.run p ins st = .ok r →
       r.outputs.length ≤ nO ∧ (∀ ser ∈ r.outputs, ser.length ≤ T) ∧ r.states.length ≤ nS) :
     (∀ e, cellStep km (List.replicate nP none) ((List.range nP).map fun j => (j, 1)) (mat pst pb rows nSets)
           (cube ist ib nIn nI T) i (rowAt sst (sb + i * nS) nS) (mat ost (ob + i * (nO * T')) nO T') = .error e →
@@ -433,7 +470,7 @@ theorem cellStepNd_refines [Num α] (km : KModel α) {h : Heap α} {parameters i
             ((mat ost (ob + i * (nO * T')) nO T').zip (r.outputs ++ List.replicate
               ((mat ost (ob + i * (nO * T')) nO T').length - r.outputs.length) [])).map
               fun (p : List α × List α) => overwrite p.1 p.2)) := by
-    unfold cellStep
+    rw [Props.C04.cellStep_blocks _ _ _ _ _ _ _ _ (by rw [cube_length]; omega)]
     simp only [hcp, hblock, bind, Except.bind]
   have hR : cellStepNd km.run nP nI h parameters inputs states outputs
       { numCells := N, numStates := nS, numInputSequences := nIn, inputLen := T, cellInputsShape := [(nI : Int), (T : Int)],
@@ -456,7 +493,8 @@ theorem cellStepNd_refines [Num α] (km : KModel α) {h : Heap α} {parameters i
       cases he; rfl
     · simp [bind, Except.bind] at he
   | ok r =>
-    obtain ⟨hko, hkl, hks⟩ := hK _ _ _ _ hk
+    obtain ⟨hps1, hps2, hps3⟩ := passed_shapes (i := i) ri hib hi hsfit
+    obtain ⟨hko, hkl, hks⟩ := hK _ _ _ _ hps1 hps2 hps3 hk
     refine ⟨fun e he => by simp [bind, Except.bind, pure, Except.pure] at he, fun s' o' he => ?_⟩
     simp only [bind, Except.bind, pure, Except.pure, Except.ok.injEq, Prod.mk.injEq] at he
     obtain ⟨hs', ho'⟩ := he
